@@ -73,7 +73,7 @@ func verifyFunction(w *World, fn *ssa.Function) (rep *FnReport) {
 	st := &State{pc: "true", locals: map[*ssa.Alloc][]string{}, regs: map[ssa.Value]*Val{}, heap: map[string]string{}}
 	e.assume(st, "(>= "+e.heapGet(st, e.keyAlloc())+" 0)")
 	e.assumeTrackedWF(st)
-	if len(w.spec.RawAxioms) > 0 {
+	if true {
 		// functions of packages with sequence specs: the sequence view is set up before any append executes
 		pkgPath := ""
 		tp := fn
@@ -85,6 +85,9 @@ func verifyFunction(w *World, fn *ssa.Function) (rep *FnReport) {
 		}
 		if w.spec.Options[pkgPath]["seq"] == "string" {
 			e.seqSetup()
+		}
+		if w.spec.Options[pkgPath]["seq"] == "bytes" {
+			e.seqSetupInt()
 		}
 	}
 	args, binds := fx.genericArgs(st)
@@ -119,7 +122,14 @@ func verifyFunction(w *World, fn *ssa.Function) (rep *FnReport) {
 		}
 		for _, gi := range append(append([]*Clause{}, w.spec.GlobalInvs["extern"]...), w.spec.GlobalInvs[pkgPath]...) {
 			env := &SpecEnv{fx: fx, e: e, st: st, vars: map[string]*SV{}, pkg: gi.Pkg}
-			if sv := env.eval(gi.Expr); sv != nil && len(sv.V.L) == 1 {
+			nerr := len(e.specErrors)
+			sv := env.eval(gi.Expr)
+			if len(e.specErrors) > nerr && gi.Pkg == "extern" {
+				// an extern fact about packages this module does not import: not applicable here
+				e.specErrors = e.specErrors[:nerr]
+				continue
+			}
+			if sv != nil && len(sv.V.L) == 1 {
 				e.assume(st, sv.V.L[0])
 			}
 		}
